@@ -45,7 +45,7 @@ ENTRIES_PLAY = ['movegen::movegen::MoveGen::new_legal',
                 'board::Board::status', '<board::Board as core::fmt::Display>::fmt', 'board::Board::make_move', 'board::Board::make_move_new']
 
 
-def classify_reject(ctx, s, lits):
+def classify_reject(ctx, s, lits, colvars=()):
     """name of the conjunct a rejecting path belongs to, from its last literals"""
     an = ctx.an()
     def cc(c):
@@ -56,6 +56,8 @@ def classify_reject(ctx, s, lits):
     if last is None:
         return None
     c, tv = last
+    if c[0] in ('bbeq', 'bbne') and tv is False:      # `!(a == b)` is `a != b`
+        c, tv = (('bbne' if c[0] == 'bbeq' else 'bbeq'),) + tuple(c[1:]), True
     nonempty = None
     if c[0] in ('bbne', 'bbeq') and ('bb0',) in c[1:]:
         other = [y for y in c[1:] if y != ('bb0',)][0]
@@ -109,10 +111,21 @@ def classify_reject(ctx, s, lits):
             for col, nm in ((W_, 'white'), (B_, 'black')):
                 if c[2][1] == mk('&', [pc('King'), cc(col)]):
                     return 'one-%s-king' % nm
-    if c[0] == 'bin' and c[1] in ('Gt', 'Ge') and c[2][0] == 'popcnt' and c[3][0] == 'int' and tv is True:
-        for col, nm in ((W_, 'white'), (B_, 'black')):
-            if c[2][1] == cc(col):
-                return 'men-bound-%s:%d' % (nm, c[3][1] if c[1] == 'Gt' else c[3][1] - 1)
+            for cv in colvars:      # the same test inside a loop over both colours
+                if c[2][1] == mk('&', [pc('King'), cc(cv)]):
+                    return 'one-white-king+one-black-king'
+    if c[0] == 'bin' and c[1] in ('Gt', 'Ge', 'Lt', 'Le') and c[2][0] == 'popcnt' and c[3][0] == 'int':
+        op, k = c[1], c[3][1]
+        if tv is False:             # rejecting on the false edge of `<` / `<=`
+            op = {'Lt': 'Ge', 'Le': 'Gt', 'Gt': 'Le', 'Ge': 'Lt'}[op]
+        if op in ('Gt', 'Ge'):
+            bound = k if op == 'Gt' else k - 1
+            for col, nm in ((W_, 'white'), (B_, 'black')):
+                if c[2][1] == cc(col):
+                    return 'men-bound-%s:%d' % (nm, bound)
+            for cv in colvars:
+                if c[2][1] == cc(cv):
+                    return 'men-bound-white:%d+men-bound-black:%d' % (bound, bound)
     return None
 
 
@@ -127,37 +140,73 @@ def r2(ctx):
         require_no_break(ctx, R, s, l_, SANE, sh(norm(l_['source']), 60) if l_['source'] is not None else 'colours / pieces',
                          'the checks in its body are skipped for the remaining colours / pieces')
     rets = [st for st in s.stores if st.get('local') and st['target'] == ('ref', ('l', 0), ())]
+    # a tail expression that is a call (`a & b == EMPTY`) writes the return place as the call's destination
+    rets += [dict(blk=c['blk'], line=c['line'], value=c['result'], local=True) for c in s.calls if c.get('dest') == ('ref', ('l', 0), ())]
     found = {}
     chains = []
     nfalse = 0
+    colvars = []
+    for l_ in for_loops(s):
+        if l_['source'] is not None and 'ALL_COLORS' in sh(l_['source'], 300):
+            E_ = norm(l_['elem'])
+            colvars += [E_, ('mem', ('h', E_))]
+
+    def expand(c, tv):
+        """alternatives under which boolean expression c has truth value tv; each alternative a list of (atom, truth)"""
+        if c[0] == 'int':
+            return [[]] if bool(c[1]) == tv else []
+        if c[0] == 'un' and c[1] == 'Not':
+            return expand(c[2], not tv)
+        if c[0] == 'ite' and all(v in (0, 1, 'otherwise') for v, _ in c[2]):
+            out = []
+            for v, sub in c[2]:
+                for alt_s in expand(sub, tv):
+                    for alt_c in expand(c[1], v != 0):
+                        out.append(alt_c + alt_s)
+            return out
+        return [[(c, tv)]]
+
+    accepting = []
     for st in rets:
         v = norm(st['value'])
         if v == ('int', 1, 'bool'):
+            accepting.append(st)
             continue
+        tail = None
         if v != ('int', 0, 'bool'):
-            ctx.inconclusive(R, 'is_sane returns a non-constant: ' + sh(v, 100))
-            continue
+            # `return <boolean expression>`: rejects when the expression is false, accepts otherwise
+            tail = v
+            accepting.append(st)
         nfalse += 1
         ds = dnf(s, st['blk'])
         for conj in ds:
-            lits = []
+            alts = [[]]
+            gblocks = []
             for g in conj:
                 if g['cond'] is None:
                     continue
-                c = bb(g['cond'], an)
-                if c[0] == 'discr':
+                gblocks.append(g['blk'])
+                raw = norm(g['cond'])
+                if raw[0] == 'discr' or g['truth'] is None:
                     continue
-                lits.append((c, g['truth']))
-            cls = classify_reject(ctx, s, lits)
-            if cls is None:
-                ctx.violation(R, SANE + ':unattributed:' + (sh(lits[-1][0], 60) if lits else 'unconditional'),
-                              'is_sane rejects under a condition that is not one of the required validity conjuncts: %s -- some valid position would be refused' % (
-                                  sh(lits[-1][0], 300) if lits else 'unconditionally'), where(body, st['line']))
-            else:
-                found.setdefault(cls.split(':')[0], []).append((st['line'], cls))
-                gb = [g['blk'] for g in conj if g['cond'] is not None]
-                if gb:
-                    chains.append((cls.split(':')[0], gb))
+                ex = expand(raw, g['truth'])
+                alts = [a_ + e_ for a_ in alts for e_ in ex]
+            if tail is not None:
+                ex = expand(tail, False)
+                alts = [a_ + e_ for a_ in alts for e_ in ex]
+            for alt in alts:
+                lits = [(bb(c_, an), t_) for c_, t_ in alt]
+                lits = [(c_, t_) for c_, t_ in lits if c_[0] != 'discr']
+                cls = classify_reject(ctx, s, lits, colvars=[bb(x, an) for x in colvars] + colvars)
+                if cls is None:
+                    ctx.violation(R, SANE + ':unattributed:' + (sh(lits[-1][0], 60) if lits else 'unconditional'),
+                                  'is_sane rejects under a condition that is not one of the required validity conjuncts: %s -- some valid position would be refused' % (
+                                      sh(lits[-1][0], 300) if lits else 'unconditionally'), where(body, st['line']))
+                else:
+                    for one in cls.split('+'):
+                        found.setdefault(one.split(':')[0], []).append((st['line'], one))
+                        if gblocks or tail is not None:
+                            chains.append((one.split(':')[0], gblocks or [st['blk']]))
     # no acceptance before every conjunct was tested: each rejection test (or the loop it sits in) dominates every `return true`
     cfg = s.cfg
     loops_ = cfg.loops()
@@ -181,9 +230,7 @@ def r2(ctx):
                 return e
             e = ps[0]
     tests = [(cls, entry_of(gb[-1])) for cls, gb in chains]
-    for st in rets:
-        if norm(st['value']) != ('int', 1, 'bool'):
-            continue
+    for st in accepting:
         skipped = []
         for cls, g in tests:
             if cfg.dominates(g, st['blk']) or any(g in blks and cfg.dominates(h, st['blk']) for h, blks in loops_.items()):
